@@ -102,7 +102,17 @@ Definition serve_exc (P : vparams) (fS : sflags) (ver tb : text) (e : exc) : ser
 Record rflags := { import_custom : bool; inst_custom : bool; inst_oldstyle : bool }.
 (* what a module attribute is: a BaseException subclass (with its identity and whether cls.__new__(cls)
    works without arguments) or anything else *)
-Inductive attr_kind := AExc (c : clsid) (new_ok : bool) | AOther.
+Inductive attr_kind :=
+| AExc (c : clsid) (new_ok : bool)
+| AOther
+| ALazy (imports : list text) (found : option (clsid * bool)).
+  (* not in the module's __dict__: served by a module-level __getattr__ (PEP 562) that imports [imports] and then
+     returns an exception class ([Some]) or anything else / raises AttributeError ([None]) *)
+(* generated fact: how load() reads a class out of an already imported module.
+   LkGetattr: getattr(module, name, None), which runs the module's __getattr__ hook whatever the switches say;
+   LkDictUnlessImport: the hook is consulted only when import_custom_exceptions is on, the module's __dict__ otherwise;
+   LkDict: the module's __dict__ only *)
+Inductive lookup_mode := LkGetattr | LkDictUnlessImport | LkDict.
 Definition ns := list (text * attr_kind).
 Record env := { builtins_ns : ns; modules : list (text * ns); importable : list (text * ns); local_major : text }.
 
@@ -130,6 +140,7 @@ Definition resolution_prog : rprog :=
                 (RIf CModIsBuiltins (RRet SrcBuiltins) (RRet SrcNone)).
 
 Section Resolve.
+Variable M : lookup_mode.
 Variable fR : rflags.
 Variable E : env.
 Variable mods : list (text * ns).
@@ -145,16 +156,21 @@ Fixpoint eval_cond (c : rcond) : bool :=
   | CAnd a b => eval_cond a && eval_cond b
   end.
 
-(* getattr(module, clsname, None): the name must be text *)
-Definition getattr_ns (n : option ns) : result (option attr_kind) :=
+(* is a module-level __getattr__ hook consulted by the sys.modules lookup? *)
+Definition hooks_run : bool :=
+  match M with LkGetattr => true | LkDictUnlessImport => import_custom fR | LkDict => false end.
+Definition visible (hooks : bool) (k : option attr_kind) : option attr_kind :=
+  match k with Some (ALazy _ _) => if hooks then k else None | _ => k end.
+(* getattr(module, clsname, None) [strict: the name must be text]  /  module.__dict__.get(clsname) *)
+Definition getattr_ns (strict hooks : bool) (n : option ns) : result (option attr_kind) :=
   match clsname with
-  | PStr c => Ok (match n with Some x => assoc c x | None => None end)
-  | _ => Raise TypeError
+  | PStr c => Ok (match n with Some x => visible hooks (assoc c x) | None => None end)
+  | _ => if strict then Raise TypeError else Ok None
   end.
 Definition eval_src (s : rsrc) : result (option attr_kind) :=
   match s with
-  | SrcSysModules => getattr_ns (match modname with PStr m => find_module E mods m | _ => None end)
-  | SrcBuiltins => getattr_ns (Some (builtins_ns E))
+  | SrcSysModules => getattr_ns hooks_run hooks_run (match modname with PStr m => find_module E mods m | _ => None end)
+  | SrcBuiltins => getattr_ns true false (Some (builtins_ns E))     (* the builtins module has no hook *)
   | SrcNone => Ok None
   end.
 Fixpoint run_prog (p : rprog) : result (option attr_kind) :=
@@ -264,7 +280,15 @@ Definition build (E : env) (eff : list effect) (rc : rcls) (new_ok : bool) (args
   end.
 
 (* vinegar.load(val, import_custom_exceptions, instantiate_custom_exceptions, instantiate_oldstyle_exceptions) *)
-Definition vload (fR : rflags) (E : env) (val : pyval) : list effect * result lres :=
+Definition generic_or_fail (E : env) (eff : list effect) (modname clsname args attrs tb : pyval) : list effect * result lres :=
+  match generic_name_check modname clsname with
+  | Ok _ => build E eff (Generic modname clsname) true args attrs tb
+  | Raise e => (eff, Raise e)
+  | OutOfFuel => (eff, OutOfFuel)
+  | Unmodelled => (eff, Unmodelled)
+  end.
+
+Definition vload (M : lookup_mode) (fR : rflags) (E : env) (val : pyval) : list effect * result lres :=
   if py_eq_one val then ([], Ok LStop) else
   match val with
   | PStr s => ([], Ok (LStr s))
@@ -276,15 +300,15 @@ Definition vload (fR : rflags) (E : env) (val : pyval) : list effect * result lr
           let imp := eval_cond fR E (modules E) modname import_guard in
           let eff := if imp then match modname with PStr m => [EImport m] | _ => [] end else [] in
           let mods := if imp then after_import E modname else modules E in
-          match run_prog fR E mods modname clsname resolution_prog with
+          match run_prog M fR E mods modname clsname resolution_prog with
           | Ok (Some (AExc c ok)) => build E eff (Real c) ok args attrs tb
-          | Ok _ =>                                  (* not a type / not a BaseException subclass / absent *)
-              match generic_name_check modname clsname with
-              | Ok _ => build E eff (Generic modname clsname) true args attrs tb
-              | Raise e => (eff, Raise e)
-              | OutOfFuel => (eff, OutOfFuel)
-              | Unmodelled => (eff, Unmodelled)
+          | Ok (Some (ALazy imps found)) =>           (* the module's hook ran: its imports happen, whatever it returns *)
+              let eff' := eff ++ map EImport imps in
+              match found with
+              | Some (c, ok) => build E eff' (Real c) ok args attrs tb
+              | None => generic_or_fail E eff' modname clsname args attrs tb
               end
+          | Ok _ => generic_or_fail E eff modname clsname args attrs tb   (* not a type / not a BaseException subclass / absent *)
           | Raise e => (eff, Raise e)
           | OutOfFuel => (eff, OutOfFuel)
           | Unmodelled => (eff, Unmodelled)
@@ -336,7 +360,14 @@ Definition rflags_of_sx (x : sx) : rflags :=
   | _ => {| import_custom := false; inst_custom := false; inst_oldstyle := false |}
   end.
 Definition kind_of_sx (x : sx) : attr_kind :=
-  match x with SL [SI 1%Z; c; ok] => AExc (clsid_of_sx c) (sx_bool ok) | _ => AOther end.
+  match x with
+  | SL [SI 1%Z; c; ok] => AExc (clsid_of_sx c) (sx_bool ok)
+  | SL [SI 2%Z; SL imps] => ALazy (map text_of_sx imps) None
+  | SL [SI 2%Z; SL imps; c; ok] => ALazy (map text_of_sx imps) (Some (clsid_of_sx c, sx_bool ok))
+  | _ => AOther
+  end.
+Definition mode_of_sx (x : sx) : lookup_mode :=
+  match sx_z x with 0%Z => LkGetattr | 1%Z => LkDictUnlessImport | _ => LkDict end.
 Definition ns_of_sx (x : sx) : ns :=
   map (fun e => match e with SL [n; k] => (text_of_sx n, kind_of_sx k) | _ => ([], AOther) end) (sx_l x).
 Definition mods_of_sx (x : sx) : list (text * ns) :=
@@ -374,9 +405,9 @@ Definition run_vinegar (x : sx) : sx :=
         | Sent v => SL [SS "sent"; sx_of_pv v]
         end
       else bad_input
-  | SL [op; f; e; v] =>
+  | SL [op; m; f; e; v] =>
       if is_tag "load" op then
-        let '(eff, r) := vload (rflags_of_sx f) (env_of_sx e) (pv_of_sx v) in
+        let '(eff, r) := vload (mode_of_sx m) (rflags_of_sx f) (env_of_sx e) (pv_of_sx v) in
         SL [SL (map sx_of_effect eff); sx_result sx_of_lres r]
       else bad_input
   | _ => bad_input
